@@ -300,6 +300,79 @@ class Harness:
         return w.last
 
 
+def crowd_case(case):
+    """Well over a thousand agents join; every 7th leaves, every 21st comes back; a duplicate and an unknown id are
+    tried at several points.  Length, iteration, listing and lookup agree with the joining order throughout."""
+    from mc.engine.seams import reset_library
+    reset_library()
+    n, kind = case['n'], case['kind']
+    m = new_model(seed=1)
+    pos = ()
+    if kind == 'grid':
+        m.environment = Envs.GridWorld(m, 40, 40)
+        pos = None
+    env = m.environment
+    agents = [Core.Agent(f'c{i}', m) for i in range(n)]
+    for a in agents[::3]:
+        a.add_component(X(a, m))
+    res = []
+
+    def place(i):
+        if pos is None:
+            env.add_agent(agents[i], i % 40, (i // 40) % 40)
+        else:
+            env.add_agent(agents[i])
+        res.append(i)
+
+    def judge(what):
+        if len(env) != len(res):
+            raise Violation(f'{what}: len(env)', expected=len(res), observed=len(env))
+        got = [a.id for a in env]
+        if got != [f'c{i}' for i in res] or [a.id for a in env.get_agents()] != got:
+            k = next((k for k, (g, i) in enumerate(zip(got, res)) if g != f'c{i}'), min(len(got), len(res)))
+            raise Violation(f'{what}: iteration / listing differs from joining order at position {k} ({kind}, {n} '
+                            f'agents)', expected=[f'c{i}' for i in res[max(0, k - 1):k + 3]], observed=got[max(0, k - 1):k + 3])
+        for i in (0, 6, 7, n // 2, n - 1):
+            want = agents[i] if i in resident else None
+            if env.get_agent(f'c{i}') is not want:
+                raise Violation(f'{what}: get_agent(c{i})', expected=want is not None, observed=env.get_agent(f'c{i}') is not None)
+        for bad in (res[0], res[len(res) // 2], res[-1]):
+            try:
+                dup = Core.Agent(f'c{bad}', m)
+                (env.add_agent(dup, 0, 0) if pos is None else env.add_agent(dup))
+            except Core.DuplicateAgentError:
+                pass
+            else:
+                raise Violation(f'{what}: a second agent with the resident id c{bad} was accepted')
+        try:
+            env.remove_agent('nobody')
+        except Core.AgentNotFoundError:
+            pass
+        else:
+            raise Violation(f'{what}: removal of an unknown id accepted')
+        if len(env) != len(res):
+            raise Violation(f'{what}: a rejected operation changed len(env)', expected=len(res), observed=len(env))
+
+    for i in range(n):
+        place(i)
+    resident = set(res)
+    judge('after all joined')
+    for i in range(0, n, 7):
+        env.remove_agent(f'c{i}')
+        res.remove(i)
+    resident = set(res)
+    judge('after every 7th left')
+    for i in range(0, n, 21):
+        place(i)
+    resident = set(res)
+    judge('after every 21st came back')
+    xs = m.systems[X]
+    want = [i for i in res if i % 3 == 0]
+    if [c.agent.id for c in xs] != [f'c{i}' for i in want]:
+        raise Violation(f'component listing of the crowd differs from the residents\' components in joining order')
+    return 3 * n
+
+
 def _diff(a, b):
     sa, sb = repr(a), repr(b)
     i = 0
@@ -319,6 +392,16 @@ def run(ctx):
            [(k, False, True) for k in fk]
     if ctx.small:
         plan = [(k, False, False) for k in kinds]
+    for kind in ('plain', 'grid'):
+        case = {'leg': 'crowd', 'kind': kind, 'n': 150 if ctx.small else 1500}
+        ctx.traces += 1
+        try:
+            ctx.transitions += hbfs._guard(crowd_case, case)
+            ctx.outcome(('crowd', kind))
+        except Violation as v:
+            ctx.report(case, v)
+            return
+    ctx.leg('crowd', note='1500 agents in the plain environment and on a 40x40 grid')
     # the foreign-agent legs are the largest: first, for load balance (one harness worker per leg)
     plan.sort(key=lambda p: (not p[2], p[0] != 'plain'))
     par.pmap(ctx, explore_leg, plan, procs=ctx.procs)
@@ -336,5 +419,8 @@ def explore_leg(ctx, item):
 
 
 def replay(case):
+    if case['leg'] == 'crowd':
+        hbfs._guard(crowd_case, case)
+        return
     hbfs.replay_case(Harness(case['config']['world'], case['config'].get('aliases', False),
                              case['config'].get('foreign', False)), case)
